@@ -395,6 +395,55 @@ func registeredFuncs(prog *ssa.Program) []*ssa.Function {
 	return out
 }
 
+// repoImplementors: the methods named like m of the repository's own named types that implement the interface
+// type t, when t is an interface declared in the repository.
+func repoImplementors(prog *ssa.Program, t types.Type, m *types.Func) []*ssa.Function {
+	named, ok := t.(*types.Named)
+	if !ok || named.Obj().Pkg() == nil {
+		return nil
+	}
+	pp := named.Obj().Pkg().Path()
+	if !(strings.HasPrefix(pp, repoModule) || strings.HasPrefix(pp, "gdsa/")) {
+		return nil
+	}
+	iface, ok := named.Underlying().(*types.Interface)
+	if !ok {
+		return nil
+	}
+	var out []*ssa.Function
+	for _, pkg := range prog.AllPackages() {
+		if !(strings.HasPrefix(pkg.Pkg.Path(), repoModule) || strings.HasPrefix(pkg.Pkg.Path(), "gdsa/")) {
+			continue
+		}
+		var names []string
+		for n := range pkg.Members {
+			names = append(names, n)
+		}
+		sort.Strings(names)
+		for _, n := range names {
+			tn, ok := pkg.Members[n].(*ssa.Type)
+			if !ok {
+				continue
+			}
+			if _, isIface := tn.Type().Underlying().(*types.Interface); isIface {
+				continue
+			}
+			for _, recv := range []types.Type{tn.Type(), types.NewPointer(tn.Type())} {
+				if !types.Implements(recv, iface) {
+					continue
+				}
+				if sel := prog.MethodSets.MethodSet(recv).Lookup(m.Pkg(), m.Name()); sel != nil {
+					if g := prog.MethodValue(sel); g != nil {
+						out = append(out, g)
+					}
+				}
+				break
+			}
+		}
+	}
+	return out
+}
+
 func reachableRepoFuncs0(fn *ssa.Function) []*ssa.Function {
 	seen := map[*ssa.Function]bool{}
 	var out []*ssa.Function
@@ -410,6 +459,13 @@ func reachableRepoFuncs0(fn *ssa.Function) []*ssa.Function {
 				switch x := ins.(type) {
 				case *ssa.Call:
 					walk(x.Call.StaticCallee())
+					if x.Call.IsInvoke() {
+						// a call through an interface the repository declares itself (a seam for a reader, a source of
+						// paragraphs, ...): every repository type that implements it may be meant
+						for _, g := range repoImplementors(f.Prog, x.Call.Value.Type(), x.Call.Method) {
+							walk(g)
+						}
+					}
 					if x.Call.StaticCallee() == nil && !x.Call.IsInvoke() {
 						// a call through a function value: every function a package initialiser registers in a
 						// package-level table (a map or slice of constructors, ...) with this signature may be meant
